@@ -6,6 +6,7 @@ import Bourse.Model.Env
 import Bourse.Props.C14
 import Bourse.Props.C15
 import Bourse.Lemmas.EnvInv
+import Bourse.Props.C01
 
 namespace Bourse.Props.C08
 open Bourse
@@ -183,6 +184,21 @@ theorem env_books_invariant (t0 : Nat) (ticks : List Nat) (stepSize : Nat) (trad
     (ht : ∀ t ∈ ticks, 0 < t) (ops : List MEnv.EOp) (hok : EnvRunOk (MEnv.new t0 ticks stepSize trading n, g) ops) :
     ∀ b ∈ (MEnv.runOps (MEnv.new t0 ticks stepSize trading n, g) ops).1.market.books, Inv b :=
   env_inv_reachable t0 ticks stepSize trading n g ht ops hok
+
+/-- **Every asset of every simulation is the reference matching engine**: the book of asset `a` after
+any environment history, forgetting keys / stamps / aggregates, is the state the straightforward
+reference engine of C01 reaches on that asset's share of the operations — whenever that share is a
+valid, fault-free book history (C01's own condition). One refinement theorem, lifted through the
+projection: C01 holds inside simulations. -/
+theorem simulation_asset_is_reference_engine (t0 : Nat) (ticks : List Nat) (stepSize : Nat) (trading : Bool) (n : Nat)
+    (g : Xoro) (ops : List MEnv.EOp) (a tk : Nat) (htk : ticks[a]? = some tk) (hpos : 0 < tk)
+    (hv : ∀ op ∈ (envMarketOps (MEnv.new t0 ticks stepSize trading n, g) ops).filterMap (C14.project a), ValidOp op)
+    (hnf : NoFault (Book.new t0 tk trading) ((envMarketOps (MEnv.new t0 ticks stepSize trading n, g) ops).filterMap (C14.project a))) :
+    ((MEnv.runOps (MEnv.new t0 ticks stepSize trading n, g) ops).1.market.books[a]?).map abs =
+      some (Ref.run (Ref.init t0 tk trading) ((envMarketOps (MEnv.new t0 ticks stepSize trading n, g) ops).filterMap (C14.project a))) := by
+  rw [env_history_is_book_history, htk]
+  simp only [Option.map_some]
+  rw [C01.state_is_reference_state t0 tk trading hpos _ hv hnf]
 
 /-- Non-vacuity: the history of the earlier example (three submissions, a queued cancel, a queued
 modify, one step) as environment operations: the run satisfies `EnvRunOk` — so the theorems above
